@@ -16,7 +16,7 @@ KERNELS = ['c07_cs_localize', 'c07_cs_globalize', 'c07_ap_scale', 'c07_ideal_n',
            # shared kernels the C07 theorems are stated over
            'translate', 'rotate_x', 'rotate_y', 'rotate_z', 'refract', 'reflect', 'propagate', 'align',
            'std_distance', 'std_normal', 'std_sag', 'plane_distance', 'radial_clip', 'rr_clip',
-           'surf_trace_paraxial', 'rg_generate', 'rg_origins', 'rg_z_offset']
+           'surf_trace_paraxial']
 COQ_TARGETS = ['Model/Trace.vo', 'Model/M_C07.vo', 'Model/Paraxial.vo']
 
 
@@ -52,8 +52,14 @@ PARTIAL = [
     'quadric along the ray is proved, the root selection (hit between the two surfaces) is a hypothesis checked numerically',
     'homogeneity / mirror covariance of the whole trace are proved for planes and conics (exact reals and extended reals for '
     'the mirrors, exact reals for scaling); aspheres are covered by correspondence only',
-    'scale_system: the model of the loop is proved to scale every vertex position / radius / aperture / EPD for lenses '
-    'without decentres; with a decentre the code leaves dx, dy unscaled (finding scale-system-decentre)',
+    'scale_system: proved for every prescription that ONE set_thickness call sets the addressed gap, keeps all other gaps and '
+    're-bases surface 1 to z = 0, and that the radius / aperture / EPD columns of the model equal the scaled prescription; '
+    'that the LOOP of such calls yields s times every vertex position is checked by executing the model against optiland '
+    '(finite and infinite objects), not proved; the decentre columns are proved to be returned unchanged, so the operation '
+    'meets the specification only for zero decentres (finding scale-system-decentre, refutation in coq/Findings/F_C07.v)',
+    'launch (RayGenerator): mirror covariance and homogeneity of the generated ray are checked on optiland (launch record of '
+    'every metamorphic pair) and the kernels are translated (c07_origins_inf, rg_generate), but no theorem is stated over them',
+    'first/third-order homogeneity (f2, Seidel sums scale by s): checked on optiland and on the paraxial model, not proved',
 ]
 
 INF = float('inf')
